@@ -1231,6 +1231,98 @@ func runAttackFlakyPipe(c *run.Ctx, s *kit.Summary) {
 	}
 }
 
+// runAttackInterrupted: `vegeta attack` stopped by one SIGINT while requests are in flight (the attack then
+// waits for them and exits), its results going to `-output <outArg>` where outArg names the process's own
+// stdout in one of its spellings (stdout, /dev/stdout, /dev/fd/1) and fd 1 is a pipe the harness reads.
+// The stream must decode to the records of the exchanges: nothing foreign, and — the attack having exited
+// with status 0, i.e. every Encode call returned nil — nothing lost; then end-of-stream or an error.
+func runAttackInterrupted(c *run.Ctx, s *kit.Summary, outArg string) {
+	if _, err := os.Stat(c.Vegeta); err != nil {
+		s.Skipped["attack-command: no vegeta binary"]++
+		return
+	}
+	var served int64
+	srv := httptest.NewServer(http.HandlerFunc(func(w http.ResponseWriter, _ *http.Request) {
+		time.Sleep(300 * time.Millisecond) // so that requests are in flight when the signal arrives
+		w.Header().Set("X-Served", "1")
+		fmt.Fprint(w, "ok")
+		atomic.AddInt64(&served, 1)
+	}))
+	defer srv.Close()
+	rd, wr, err := os.Pipe()
+	if err != nil {
+		s.Skipped["attack-command: no pipe"]++
+		return
+	}
+	defer rd.Close()
+	name := "this-run-sigint"
+	target := srv.URL + "/"
+	cmd := exec.Command(c.Vegeta, "attack", "-name", name, "-rate=50/s", "-duration=30s", "-output", outArg)
+	cmd.Env = append(os.Environ(), "VEGETA_VERIF_DRIVER=")
+	cmd.Stdin = strings.NewReader("GET " + target + "\n")
+	cmd.Stdout = wr
+	var stderr bytes.Buffer
+	cmd.Stderr = &stderr
+	if err := cmd.Start(); err != nil {
+		wr.Close()
+		s.Skipped["attack-command: cannot start"]++
+		return
+	}
+	wr.Close()
+	var stream bytes.Buffer
+	readDone := make(chan struct{})
+	go func() { io.Copy(&stream, rd); close(readDone) }()
+	waited := make(chan error, 1)
+	go func() { waited <- cmd.Wait() }()
+	deadline := time.Now().Add(8 * time.Second)
+	for atomic.LoadInt64(&served) < 10 && time.Now().Before(deadline) {
+		time.Sleep(10 * time.Millisecond)
+	}
+	reached := atomic.LoadInt64(&served) >= 10
+	cmd.Process.Signal(os.Interrupt)
+	var exitErr error
+	select {
+	case exitErr = <-waited:
+	case <-time.After(40 * time.Second):
+		cmd.Process.Kill()
+		<-waited
+		<-readDone
+		s.Skipped["attack-command: interrupted run did not finish"]++
+		return
+	}
+	<-readDone
+	if !reached {
+		s.Skipped["attack-command: interrupted run not set up ("+outArg+")"]++
+		return
+	}
+	total := atomic.LoadInt64(&served)
+	got, term := decodePrefix(gobCodec(), stream.Bytes())
+	s.Case("attack-command:sigint:"+outArg, true)
+	s.Count(fmt.Sprintf("attack-command:interrupted run -output %s exit0=%v", outArg, exitErr == nil))
+	in := map[string]interface{}{"command": "vegeta attack -name " + name + " -rate=50/s -duration=30s -output " + outArg + " (fd 1 = pipe), one SIGINT after ≥ 10 exchanges, 300 ms per exchange",
+		"exchanges_served": total, "bytes_read": stream.Len(), "attack_exit": fmt.Sprint(exitErr), "attack_stderr": strings.TrimSpace(stderr.String())}
+	key := map[string]interface{}{"codec": "gob"}
+	seen := map[uint64]bool{}
+	for i := range got {
+		x := &got[i]
+		if x.Attack != name || x.Method != "GET" || x.URL != target || seen[x.Seq] || (x.Error == "" && (x.Code != 200 || string(x.Body) != "ok")) {
+			s.Violate(kit.Violation{Kind: "prefix_extra_record", What: "a decoder reading the interrupted attack's output hands out a record that was never written", Input: in,
+				Observed: fmt.Sprintf("record %d of %d: %s", i, len(got), gen.ResultLine(x)), Key: key})
+			return
+		}
+		seen[x.Seq] = true
+	}
+	if term == "panic" || term == "runaway" {
+		s.Violate(kit.Violation{Kind: "prefix_" + term, What: "decoding the interrupted attack's output", Input: in, Key: key})
+		return
+	}
+	// exit status 0: every Encode call returned nil, so every exchange the server answered has its record
+	if exitErr == nil && int64(len(got)) < total {
+		s.Violate(kit.Violation{Kind: "prefix_missing_record", What: "the attack was interrupted once, waited for the requests in flight and reported success, yet records it wrote completely do not decode from its output", Input: in,
+			Expected: fmt.Sprintf("≥ %d records then eof/error", total), Observed: fmt.Sprintf("%d records then %s", len(got), term), Key: key})
+	}
+}
+
 // runAttackComplete: a short attack that runs to its end onto an -output path that already holds something.
 // The file must then be exactly this run's stream: only its records, then end-of-stream.
 func runAttackComplete(c *run.Ctx, s *kit.Summary, prefill string) {
@@ -1571,6 +1663,9 @@ func runC09(c *run.Ctx, s *kit.Summary) {
 		runAttackCommand(c, s, []string{"old-results", "none", "junk"}[(i+int(c.Seed))%3])
 	}
 	runAttackFlakyPipe(c, s)
+	for _, o := range []string{"/dev/stdout", "/dev/fd/1", "stdout"} {
+		runAttackInterrupted(c, s, o)
+	}
 	runAttackComplete(c, s, "old-results")
 	runAttackComplete(c, s, "junk")
 	runEncodeOverwrite(c, r, s, c.N(24, 300))
